@@ -204,6 +204,15 @@ func corrC05(c *corrCtx) {
 				c05Case(c, "webp/max/"+kind, "webp", data, d.w, d.h, 8, kind == "VP8X")
 			}
 		}
+		// extended-format canvases at the largest area the container allows (width * height just below 2^32)
+		if kind == "VP8X" {
+			for _, wh := range [][2]uint32{{65537, 65535}, {65535, 65537}, {3579139, 1200}, {1200, 3579139}, {16711935, 257}, {65536, 65535}, {1 << 24, 255}, {255, 1 << 24}, {1 << 24, 256}} {
+				d := randWebpDesc(r, kind, nil)
+				d.w, d.h = wh[0], wh[1]
+				data, _ := d.build()
+				c05Case(c, "webp/area-limit/"+kind, "webp", data, d.w, d.h, 8, false)
+			}
+		}
 		if c.thorough() && kind != "VP8X" {
 			for v := uint32(1); v < 1<<14; v++ {
 				for _, which := range []int{0, 1} {
